@@ -2,17 +2,44 @@ package props
 
 import (
 	"fmt"
+	"regexp"
 	"runtime/debug"
+	"strings"
 
 	"verifharness/internal/core"
 )
 
+var frameFnRe = regexp.MustCompile(`(?m)^([^\s].*)\(.*\)\n\t(\S+):(\d+)`)
+
+// panicSite names the function in which a recovered panic was raised (first frame after the runtime's).
+func panicSite(stack string) string {
+	idx := strings.Index(stack, "\npanic(")
+	if idx < 0 {
+		return "unknown"
+	}
+	rest := stack[idx+1:]
+	ms := frameFnRe.FindAllStringSubmatch(rest, 4)
+	for _, m := range ms {
+		fn := m[1]
+		if strings.HasPrefix(fn, "panic") || strings.HasPrefix(fn, "runtime.") {
+			continue
+		}
+		if i := strings.LastIndex(fn, "/"); i >= 0 {
+			fn = fn[i+1:]
+		}
+		return fn
+	}
+	return "unknown"
+}
+
 // guard runs f and turns a panic of the code under test into a violation with the stack.
+// The signature carries the function that panicked, so distinct defects stay distinct.
 func guard(c *core.C, what string, detail any, f func()) (panicked bool) {
 	defer func() {
 		if r := recover(); r != nil {
 			panicked = true
-			c.Violate("panic-"+what, fmt.Sprintf("%s panicked: %v", what, r), map[string]any{"input": detail, "stack": string(debug.Stack())})
+			st := string(debug.Stack())
+			c.Violate("panic@"+panicSite(st), fmt.Sprintf("%s panicked in %s: %v", what, panicSite(st), r), map[string]any{"input": detail, "stack": st})
 		}
 	}()
 	f()
